@@ -319,7 +319,7 @@ func (c *Conn) Read(b []byte) (int, error) {
 	if !c.readPassthrough && len(c.readBuf) == 0 && c.readErr == nil {
 		r, err := readRecord(c.Conn)
 		if len(r) >= 5 {
-			if r[0] == 22 {
+			if r[0] == 22 && len(r) > 5 {
 				c.debugf("Read %s(%d) %s\n", contentType(r[0]), r[0], handshakeMessageTypes[r[5]])
 			} else {
 				c.debugf("Read %s(%d)\n", contentType(r[0]), r[0])
@@ -331,7 +331,7 @@ func (c *Conn) Read(b []byte) (int, error) {
 			c.readErr = err
 		case r[0] == 23:
 			c.readPassthrough = true
-		case r[0] == 22 && r[5] == 1 && c.retryCount.Load() == 1:
+		case r[0] == 22 && len(r) > 5 && r[5] == 1 && c.retryCount.Load() == 1:
 			c.debugf("Handshake Retried ClientHello\n")
 			c.readPassthrough = true
 			_, inner, err := c.handleClientHello(r, true)
@@ -388,8 +388,11 @@ func (c *Conn) Write(b []byte) (int, error) {
 }
 
 func (c *Conn) inspectWrite(record []byte) error {
-	recType := c.writeBuf[0]
-	msgType := c.writeBuf[5]
+	recType := record[0]
+	var msgType uint8
+	if len(record) > 5 { // a record may be empty
+		msgType = record[5]
+	}
 	if recType == 22 {
 		c.debugf("Write %s(%d) %s\n", contentType(recType), recType, handshakeMessageTypes[msgType])
 	} else {
@@ -399,7 +402,7 @@ func (c *Conn) inspectWrite(record []byte) error {
 	case recType == 23:
 		c.writePassthrough = true
 	case recType == 22 && msgType == 2: // Handshake / ServerHello
-		h, err := parseServerHello(c.writeBuf[5:])
+		h, err := parseServerHello(record[5:])
 		if err != nil {
 			return fmt.Errorf("%w: parseServerHello: %v\n", ErrDecodeError, err)
 		}
